@@ -277,3 +277,174 @@ class UriSetState(Contract):
                 post.append(("%s: None stays None and a value stays a value (0 is a port)" % f,
                              (got.isnone == v.isnone) if isinstance(got, VOpt) else z3.BoolVal(isinstance(got, VNone)) == v.isnone))
         return post
+
+
+@R.contract
+class UriStr(Contract):
+    """URI.__str__ for PYRO / PYRONAME uris (the object is a string): '<protocol>:<object>' followed by '@<location>' exactly when the uri has a
+    location (the text of the `location` property, by its contract).  PYROMETA (object is a set of tags) is left to the bounded harness / known findings."""
+    name = "Pyro5.core.URI.__str__"
+    props = ("C19",)
+    raises = {}
+    no_join = True
+
+    def setup(self, E, st):
+        self.proto = VStr(z3.Const("u_protocol", StrS))
+        self.obj = VStr(z3.Const("u_object", StrS))
+        self.u = st.new_obj("Pyro5.core.URI", protocol=self.proto, object=self.obj, sockname=opt_str("sockname"), host=opt_str("host"), port=opt_int("port"))
+        st.assume(self.proto.e != z3.StringVal("PYROMETA"))
+        return {"self": self.u}
+
+    def requires(self, E, st, a):
+        return R.contracts["Pyro5.core.URI.location"].requires(E, st, a)
+
+    def ensures(self, E, old, st, a, result):
+        none, t = R.contracts["Pyro5.core.URI.location"].text(st, a)
+        head = z3.Concat(self.proto.e, z3.StringVal(":"), self.obj.e)
+        want = z3.If(z3.Or(none, z3.Length(t) == 0), head, z3.Concat(head, z3.StringVal("@"), t))
+        return [("the text is protocol ':' object, then '@' location exactly when there is a location", result.e == want if isinstance(result, VStr) else z3.BoolVal(False))]
+
+
+uri_hash = z3.Function("hash_of_uri_state", StrS, StrS, BoolS, StrS, BoolS, StrS, BoolS, IntS, IntS)
+
+
+@R.spec("builtins.hash", doc="hash(<5-tuple of the URI state>): a function of the five components (equal tuples hash equal)")
+def b_hash(E, st, args, kw):
+    v = args[0]
+    if isinstance(v, VTuple) and len(v.items) == 5:
+        parts = []
+        for x in v.items:
+            if isinstance(x, VOpt):
+                parts += [x.isnone, z3.If(x.isnone, z3.StringVal("") if x.val.e.sort() == StrS else z3.IntVal(0), x.val.e)]
+            elif isinstance(x, VNone):
+                parts += [z3.BoolVal(True), None]
+            else:
+                parts.append(x.e)
+        if len(parts) == 8 and all(p is not None for p in parts):
+            return [Res(st, VInt(uri_hash(*parts)))]
+    raise Unsupported("hash(%r)" % (v,))
+
+
+@R.contract
+class UriHash(Contract):
+    """URI.__hash__: a function of exactly the five components __eq__ compares, so equal URIs hash equal (hash / eq consistency of C19)"""
+    name = "Pyro5.core.URI.__hash__"
+    props = ("C19",)
+    raises = {}
+    no_join = True
+
+    def setup(self, E, st):
+        self.parts = [VStr(z3.Const("a_protocol", StrS)), VStr(z3.Const("a_object", StrS)), opt_str("a_sockname"), opt_str("a_host"), opt_int("a_port")]
+        self.u = st.new_obj("Pyro5.core.URI", **dict(zip(("protocol", "object", "sockname", "host", "port"), self.parts)))
+        return {"self": self.u}
+
+    def ensures(self, E, old, st, a, result):
+        p = self.parts
+        want = uri_hash(p[0].e, p[1].e, p[2].isnone, z3.If(p[2].isnone, z3.StringVal(""), p[2].val.e), p[3].isnone, z3.If(p[3].isnone, z3.StringVal(""), p[3].val.e),
+                        p[4].isnone, z3.If(p[4].isnone, z3.IntVal(0), p[4].val.e))
+        return [("the hash is a function of (protocol, object, sockname, host, port) - the very components __eq__ compares", result.e == want if isinstance(result, VInt) else z3.BoolVal(False))]
+
+
+from specs.strings import uri_split      # noqa: E402
+str_upper = z3.Function("str_upper", StrS, StrS)
+
+
+@R.contract
+class UriInit(Contract):
+    """URI.__init__(text) for PYRO / PYRONAME texts: the text is split by the uri pattern (assumed regex contract specs.strings.uri_split), the protocol is
+    upper-cased, the object taken literally, the location handed to _parseLocation (its contract) with the name-server port as default for PYRONAME and no
+    default for PYRO (which must have a location); everything else is refused with PyroError.  Copying another URI goes through __setstate__ (own contract);
+    PYROMETA (tag sets) is left to the bounded harness."""
+    name = "Pyro5.core.URI.__init__"
+    props = ("C19",)
+    raises = {"Pyro5.errors.PyroError": "x_invalid"}
+    no_join = True
+    trusted = ("the text contains no newline character ('$' and '.' of the pattern treat it specially: bounded harness); the uri pattern as specified in specs/strings.py "
+               "(validated against `re` on all short strings over a small alphabet); str.upper is an uninterpreted function",)
+
+    def setup(self, E, st):
+        self.u = st.new_obj("Pyro5.core.URI")
+        self.text = VStr(z3.Const("uri_text", StrS))
+        st.assume(z3.Not(z3.Contains(self.text.e, z3.StringVal("\n"))))
+        ok, proto, obj, split, loc = uri_split(self.text.e)
+        st.assume(str_upper(proto) != z3.StringVal("PYROMETA"))
+        return {"self": self.u, "uri": self.text}
+
+    def parts(self):
+        return uri_split(self.text.e)
+
+    def ensures(self, E, old, st, a, result):
+        ok, proto, obj, split, loc = self.parts()
+        up = str_upper(proto)
+        u = self.u
+        have = all(st.has(u, f) for f in ("protocol", "object", "sockname", "host", "port"))
+        if not have:
+            return [("all five components are set", z3.BoolVal(False))]
+        P = R.contracts["Pyro5.core.URI._parseLocation"]
+        blank = State()
+        blank.heap[u.ref] = dict(sockname=NONE, host=NONE, port=NONE)
+        pyro = up == z3.StringVal("PYRO")
+        name = up == z3.StringVal("PYRONAME")
+        post = [("the text matched the uri pattern", ok),
+                ("the protocol is the upper-cased protocol text and is PYRO or PYRONAME", z3.And(E.eq(st.get(u, "protocol"), VStr(up), st), z3.Or(pyro, name))),
+                ("the object is the object text, unchanged", E.eq(st.get(u, "object"), VStr(obj), st)),
+                ("a PYRO uri has a location", z3.Implies(pyro, split))]
+        sn_none, sn, h_none, h, p_none, p = field_terms(st, u)
+        post.append(("without a location text no location component is set", z3.Implies(z3.Not(split), z3.And(sn_none, h_none, p_none))))
+        for dp, cond, what in ((VNone(), pyro, "PYRO (no default port)"), (E.qualified("Pyro5.config.NS_PORT"), name, "PYRONAME (name server port as default)")):
+            for label, c in P.spec(E, blank, st, {"self": u, "location": VStr(loc), "defaultPort": dp}):
+                post.append(("%s: location parsed as _parseLocation specifies [%s]" % (what, label), z3.Implies(z3.And(cond, split), c)))
+        return post
+
+    def x_invalid(self, E, old, st, a, exc):
+        ok, proto, obj, split, loc = self.parts()
+        up = str_upper(proto)
+        pyro = up == z3.StringVal("PYRO")
+        name = up == z3.StringVal("PYRONAME")
+        bad_loc = lambda dp_none: z3.And(split, z3.Or(z3.PrefixOf(z3.StringVal("["), loc), invalid_location(E, loc, dp_none)))      # noqa: E731
+        return [("refused only for: no match, unknown protocol, PYRO without location, or an invalid location",
+                 z3.Or(z3.Not(ok), z3.Not(z3.Or(pyro, name)), z3.And(pyro, z3.Not(split)), z3.And(pyro, bad_loc(z3.BoolVal(True))), z3.And(name, bad_loc(z3.BoolVal(False)))))]
+
+
+@R.lemma("C19:uri_text_roundtrip", props=("C19",))
+def uri_text_roundtrip(E):
+    """over the contracts of __init__ (via the uri pattern's split) and __str__: the text printed for a PYRO / PYRONAME uri that __init__ produced is split
+    by the uri pattern into the SAME protocol, the SAME object and exactly the printed location text (or none when none was printed).  Together with lemma
+    loc_roundtrip (the printed location parses back to the same socket name / host / port) this gives URI(str(u)) == u component by component."""
+    from specs.strings import no_space
+    for proto_lit in ("PYRO", "PYRONAME"):
+        for has_loc in (True, False):
+            if proto_lit == "PYRO" and not has_loc:
+                continue        # __init__ refuses PYRO without location
+            tag = "%s %s location" % (proto_lit, "with" if has_loc else "without")
+            st = State()
+            text0 = z3.Const("uri_text", StrS)
+            ok0, proto0, obj0, split0, loc0 = uri_split(text0)
+            st.assume(ok0, split0 == z3.BoolVal(has_loc))                   # UriInit.ensures: matched; location fields set iff the text had a location part
+            up0 = z3.StringVal(proto_lit)                                  # UriInit.ensures: protocol is PYRO or PYRONAME (upper-cased)
+            L1 = z3.Const("printed_location", StrS)                        # Location.ensures / UriStr.ensures: the location text, non-empty when there is one
+            st.assume(z3.Length(L1) >= 1, z3.Not(z3.Contains(L1, z3.StringVal("\n"))))
+            text1 = z3.Concat(up0, z3.StringVal(":"), obj0, z3.StringVal("@"), L1) if has_loc else z3.Concat(up0, z3.StringVal(":"), obj0)      # UriStr.ensures
+            ok1, proto1, obj1, split1, loc1 = uri_split(text1)
+            # hints, each proved then used
+            c0 = z3.IndexOf(text0, z3.StringVal(":"), 0)
+            rest0 = z3.SubString(text0, c0 + 1, z3.Length(text0) - c0 - 1)
+            j0 = z3.IndexOf(rest0, z3.StringVal("@"), 1)
+            rest1 = z3.Concat(obj0, z3.StringVal("@"), L1) if has_loc else obj0
+            hints = [("the first ':' of the printed text ends the protocol", z3.IndexOf(text1, z3.StringVal(":"), 0) == len(proto_lit)),
+                     ("the text after it is object [@ location]", z3.SubString(text1, len(proto_lit) + 1, z3.Length(text1) - len(proto_lit) - 1) == rest1)]
+            if has_loc:
+                hints += [("the object of the first parse has no '@' from index 1 on", z3.IndexOf(obj0, z3.StringVal("@"), 1) < 0),
+                          ("so the first '@' (from index 1) of the printed rest is the separator", z3.IndexOf(rest1, z3.StringVal("@"), 1) == z3.Length(obj0))]
+            else:
+                hints += [("the object is the whole rest of the first text", obj0 == rest0)]
+            for label, fact in hints:
+                E.oblige(st, "%s: hint[%s]" % (tag, label), fact, kind="lemma")
+                st.assume(fact)
+            E.oblige(st, "%s: the printed text matches the uri pattern" % tag, ok1, kind="lemma")
+            E.oblige(st, "%s: same protocol" % tag, proto1 == up0, kind="lemma")
+            E.oblige(st, "%s: same object" % tag, obj1 == obj0, kind="lemma")
+            E.oblige(st, "%s: a location part is found exactly when one was printed" % tag, split1 == z3.BoolVal(has_loc), kind="lemma")
+            if has_loc:
+                E.oblige(st, "%s: the location part is exactly the printed location" % tag, loc1 == L1, kind="lemma")
+            E.oblige(st, "vacuity:canary[%s]" % tag, z3.BoolVal(False), kind="canary")
